@@ -16,9 +16,19 @@ def sh(cmd, cwd, env=None, timeout=900):
 
 
 def main():
-    ids = sys.argv[1:] or sorted(os.path.basename(os.path.dirname(os.path.dirname(p))) for p in glob.glob("/tmp/sa/C*/out/patchA.diff"))
+    # usage: import_seeded.py [--base /tmp/sb --rename AB=CD] [Cnn ...]
+    args = sys.argv[1:]
+    base, ren = "/tmp/sa", {"A": "A", "B": "B"}
+    while args and args[0].startswith("--"):
+        if args[0] == "--base":
+            base = args[1]
+        elif args[0] == "--rename":
+            a, b = args[1].split("=")
+            ren = dict(zip(a, b))
+        args = args[2:]
+    ids = args or sorted(os.path.basename(os.path.dirname(os.path.dirname(p))) for p in glob.glob(base + "/C*/out/patchA.diff"))
     for cid in ids:
-        wt = "/tmp/sa/" + cid
+        wt = base + "/" + cid
         for ab in "AB":
             patch = "%s/out/patch%s.diff" % (wt, ab)
             demo = "%s/out/demo%s.py" % (wt, ab)
@@ -26,7 +36,7 @@ def main():
             if not (os.path.exists(patch) and os.path.exists(demo)):
                 print(cid, ab, "missing files")
                 continue
-            name = "%s-%s" % (cid, ab)
+            name = "%s-%s" % (cid, ren[ab])
             sh(["git", "checkout", "--", "."], wt)
             rc, out = sh(["git", "status", "--short"], wt)
             dirty = [l for l in out.splitlines() if not l.endswith("out/")]
